@@ -2,6 +2,9 @@
 # Validate a seeded change and run checks against it.
 #   tools/seedtest.sh validate <outdir>            : scratch worktree; tests pass with patch, demo fails with patch, passes without
 #   tools/seedtest.sh check <patch> <Cxx> [...]    : apply patch to /repo, run the quick checks, undo
+#   tools/seedtest.sh iso <verifcopy> <patch> <Cxx> [...] : same without touching /repo or /verif: the patch is applied
+#        to a scratch worktree, the checks run from <verifcopy> (a built copy of /verif, see DESIGN 14.5) with
+#        E57_REPO pointing at the worktree and a cache of their own; used while other work occupies /repo
 # The scratch worktree lives under /tmp/seedval and is removed afterwards.
 set -u
 mode="$1"; shift
@@ -38,5 +41,18 @@ elif [ "$mode" = check ]; then
     timeout 3000 ./tools/check "$p" --tier quick 2>&1 | grep -v "^WARNING" | tail -6
     echo "rc=${PIPESTATUS[0]}"
     [ -f "/tmp/seedtest.$$.$p.json" ] && mv "/tmp/seedtest.$$.$p.json" "evidence/$p.json"
+  done
+elif [ "$mode" = iso ]; then
+  vc="$1"; patch="$2"; shift 2
+  wt=/tmp/seedval/iso.$$; cache="$vc/.cache-iso.$$"
+  mkdir -p /tmp/seedval; git -C /repo worktree add --detach "$wt" HEAD >/dev/null 2>&1 || exit 3
+  trap 'git -C /repo worktree remove --force "$wt" >/dev/null 2>&1; rm -rf "$wt" "$cache"' EXIT
+  git -C "$wt" apply "$patch" || { echo "PATCH-DOES-NOT-APPLY"; exit 3; }
+  mkdir -p "$cache"; cp -r "$vc/.cache/ocaml" "$cache/ocaml"; cp "$vc/.cache/model.stamp" "$cache/model.stamp"
+  cd "$vc"
+  for p in "$@"; do
+    echo "== $p"
+    E57_REPO="$wt" VERIF_CACHE="$cache" NO_MAKE=1 timeout 3000 ./tools/check "$p" --tier quick 2>&1 | grep -v "^WARNING" | tail -6
+    echo "rc=${PIPESTATUS[0]}"
   done
 fi
